@@ -395,7 +395,9 @@ fn lowercase_in_place(s: &mut SmallString) {
     }
     let mut state = State::Lower;
     for c in s.chars() {
-        if c.is_uppercase() {
+        // Not `is_uppercase()`: titlecase letters such as 'ǅ' are not uppercase but
+        // still have a lowercase mapping.
+        if c.to_lowercase().ne([c]) {
             if c.is_ascii() {
                 state = State::MixedAscii;
             } else {
@@ -424,7 +426,9 @@ fn copy_as_lowercase(s: &str) -> SmallString {
     }
     let mut state = State::Lower;
     for c in s.chars() {
-        if c.is_uppercase() {
+        // Not `is_uppercase()`: titlecase letters such as 'ǅ' are not uppercase but
+        // still have a lowercase mapping.
+        if c.to_lowercase().ne([c]) {
             if c.is_ascii() {
                 state = State::MixedAscii;
             } else {
